@@ -89,6 +89,8 @@ def fixed_types():
                              ir.field("inner", ir.ref("Inner", PKG)), ir.field("opt", ir.optional(ir.prim("INTEGER"))),
                              ir.field("items", ir.list_(ir.prim("DOUBLE")))], package=PKG),
         ir.enum_("Single", ["ONLY"], package=PKG),
+        ir.object_("Empty", [], package=PKG),                                  # an object without fields
+        ir.object_("HoldsEmpty", [ir.field("e", ir.ref("Empty", PKG)), ir.field("l", ir.list_(ir.ref("Empty", PKG)))], package=PKG),
         # the value-name grammar [A-Z][A-Z0-9]*(_[A-Z0-9]+)*: digit-leading segments, single letters, trailing digits
         grammar_enum(),
     ]
